@@ -191,7 +191,7 @@ func gen(seed uint64, tier string) {
 	defer out.Flush()
 	runs, ndocs, ndang, maxObjs := 24, 150, 30, 80
 	if tier == "thorough" {
-		runs, ndocs, ndang, maxObjs = 120, 500, 100, 160
+		runs, ndocs, ndang, maxObjs = 96, 400, 80, 140
 	}
 	tagKeeps := []string{"tags:1=1", "tags:1=1|2", "tags:1=", "tags:2=1;1=2"}
 	for _, c := range corpus {
